@@ -38,7 +38,9 @@ CLAIMS = {
    "property-based testing: generated traffic scripts against full commands on a virtual wire running the installed BPF text; independent reply-shape classifier as oracle",
    "Exploration. For each packet-scan command and CLI mode a generated traffic script (reply-shaped frames and every near miss: subnet edges, port-range edges, all flag sets, "
    "options, ICMP types, foreign protocols, IPv6, IP-in-IP, VLAN) is injected while the scan runs; the JSON records on stdout must equal, as a multiset, one record per frame "
-   "that an independent classifier calls reply-shaped. Because the virtual wire executes the very filter text sx installs, filter o processor o per-chunk wiring is what is tested.",
+   "that an independent classifier calls reply-shaped. Because the virtual wire executes the very filter text sx installs, filter o processor o per-chunk wiring is what is tested. "
+   "The same oracle also runs against the REAL binary in network namespaces (kernel BPF, real AF_PACKET adapter; frames injected on the far end of a veth / into a tun device), "
+   "including a long quiet scan followed by one late reply, and against bursts of 500..6000 distinct replies with a slow consumer of stdout (exactly one record per frame under back-pressure).",
    "trusts verifkit/shape + wire; x/net/bpf VM + libpcap compile as the kernel's filter semantics; fragments are out of scope of the statement", "C03"),
  "C04": _c("E1-package-pbt",
    "property-based testing: bitmap permutation oracle on generated sizes/seeds + exhaustive number-theoretic check of the 32-row table with generated draws",
@@ -49,12 +51,13 @@ CLAIMS = {
    "property-based testing: generated requests/options through the four real fillers, frames decoded by an independent decoder with recomputed checksums",
    "Exploration. Generated requests and filler options (all 512 TCP flag sets every run, TTL, IP flags, type/code, overrides, payload lengths incl. odd/empty, both link modes) "
    "through the real arp/icmp/tcp/udp fillers; every field must decode back with an independent decoder, checksums are recomputed, VPN frame = Ethernet frame minus 14 bytes, "
-   "spoofed fields stay in range over 10^5 fills per case.",
+   "spoofed fields stay in range over 10^5 fills per case. One filler shared by 1..32 goroutines (-race): every frame judged against its own request. "
+   "Full commands: the frame written for --flags/--ttl/--ipflags/--ipproto/--iplen/--payload/--type/--code (incl. repeated flag names, bytes >= 0x80) decodes to the requested fields.",
    "trusts verifkit/wire (hand-written decoder, RFC 1071)", "C05"),
  "C06": _c("E1-package-pbt",
    "property-based testing: structured frame-mutation sequences through one processor instance; oracle = independent strict decoder (necessary conditions for a record)",
    "Exploration. Sequences of 1..12 generated frames (valid frames, then truncation at every offset, length/IHL/offset/address-size overrides, nested IPv4, fragments, exact-capacity slices) "
-   "through one tcp/icmp/udp/arp processor instance in both link modes: no panic, at most one record per frame, a record only if this frame itself carries the header chain, every field equal to this frame's bytes.",
+   "through one tcp/icmp/udp/arp processor instance in both link modes, each frame in fresh memory or all in one reused slot (zero-copy ring), incl. Ethernet-in-Ethernet and datagrams ending inside the transport header or non-first fragments, plain and nested; native fuzz targets in the thorough tier: no panic, at most one record per frame, a record only if this frame itself carries the header chain, every field equal to this frame's bytes.",
    "necessary conditions only (a record is never demanded); IPv4 version nibble other than 4 is not judged", "C06"),
  "C07": _c("E1-package-pbt",
    "property-based testing under the race detector: generated request streams with injected failures through the real pipeline stages, multiset oracle",
@@ -64,7 +67,7 @@ CLAIMS = {
  "C08": _c("E1-package-pbt",
    "property-based testing under the race detector: generated target files and per-target outcomes through the real application engine, exactly-once multiset oracle",
    "Exploration. Generated targets with drawn outcome/latency per target through scan.NewScanEngine + ResultChan + real JSON logger via startScanEngine, workers 1..1000, limiter on/off: "
-   "Scan calls = error-free requests exactly once, stdout lines = positives, error records = failures, nothing in flight when done closes, all printed before return; -race.",
+   "Scan calls = error-free requests exactly once, stdout lines = positives, error records = failures, nothing in flight when done closes, all printed before return; -race. Also: a tail of slow positive probes (scan outlasts the exit delay), a slow error sink, and the error records of full commands counted on stderr (0..3000 failures).",
    "schedules sampled; error records observed at Logger.Error", "C08"),
  "C14": _c("E1-package-pbt",
    "property-based testing: generated result sequences with hostile strings through the real JSON logger, decode-back oracle and de-duplication model",
@@ -74,7 +77,7 @@ CLAIMS = {
  "C18": _c("E1-package-pbt",
    "property-based testing: render->parse round trips of generated values and reference-grammar differential on mutated/arbitrary strings",
    "Exploration. For every option parser: canonical renderings of generated values parse back to the value (flag subsets exhaustive), and near-grammar/arbitrary strings are either refused or "
-   "accepted with exactly the reference grammar's value; no panic; over-long lines in files are errors.",
+   "accepted with exactly the reference grammar's value; no panic; over-long lines in files are errors. Command level: the same strings as CLI arguments - refused => the command fails before any frame, accepted => the frames carry exactly the denoted ports / flag bits / payload / exclusions. Native fuzz targets (ports, rate, flags, exclusion file) in the thorough tier.",
    "trusts verifkit/gram reference grammars and time.ParseDuration", "C18"),
  "C20": _c("E1-package-pbt",
    "fault enumeration: bounded-exhaustive read-outcome scripts + random long scripts against a reference state machine",
@@ -115,7 +118,7 @@ CLAIMS = {
  "C12": _c("E2-cmdwire",
    "fault enumeration over cancel points: synchronous cancellation at the k-th probe/record/error of the application engine, and the real SIGINT after every k-th frame of packet commands; oracle = returns, streams end, no crash, complete lines",
    "Fault enumeration. Application engine as the commands assemble it, with generated outcomes (incl. probes in flight at the cancel that then fail or report), 1..1000 workers, up to 3000 targets, slow consumer: the parent context is cancelled at an exact event (before start, k-th probe start, k-th record written, k-th error logged, inside an exit delay of 30 ms..10 min). "
-   "Packet commands on the virtual wire: for one generated scenario SIGINT after EVERY frame k = 0..total and inside a 10-minute exit delay. Socks command against stalling servers. Oracle: the call returns within 30 s (goroutine dump otherwise), result stream closed, nothing written after the return (in-stream marker), complete JSON lines, process alive under -race.",
+   "Packet commands on the virtual wire: for one generated scenario SIGINT after EVERY frame k = 0..total and inside a 10-minute exit delay. Socks command against stalling servers. Application engine over a huge target space (/0../9 x up to 65535 ports) cancelled inside an early probe. Oracle: the call returns within 30 s (goroutine dump otherwise), result stream closed, nothing written after the return (in-stream marker), complete JSON lines, process alive under -race.",
    "k is enumerated completely per scenario, scenarios are sampled; leaked goroutines that do not block the call are not judged", "C12"),
  "C09": _c("E1-package-pbt",
    "fault enumeration: scripted loopback TCP servers (all two-byte replies; every fault at every protocol step) against the real scanner; decision-table and deadline oracle",
